@@ -60,10 +60,17 @@ func openAny(r *rand.Rand, dir string) (*comet.PersistentHybridIndex, error) {
 }
 
 // dirNames lists a directory (sorted); used to see that a FAILED open left it as it was.
-func dirNames(dir string) string {
+func dirNames(dir string) string { return dirNamesBut(dir, false) }
+
+// dirNamesBut: without the segment files when an owner is alive in this process -- its background flush
+// may be writing them at any moment, which is not the failed open's doing
+func dirNamesBut(dir string, ownerAlive bool) string {
 	ents, _ := os.ReadDir(dir)
 	names := make([]string, 0, len(ents))
 	for _, e := range ents {
+		if ownerAlive && segFileRe.MatchString(e.Name()) {
+			continue
+		}
 		names = append(names, e.Name())
 	}
 	sort.Strings(names)
@@ -166,7 +173,8 @@ func genC17(r *rand.Rand, t *Trace, thorough bool) {
 			case x < 30 && r.Intn(3) == 0: // open with a corner configuration (it may be refused)
 				h := nextH
 				nextH++
-				before := dirNames(dir)
+				owned := lockExists(dir) // an owner's background flush may write segment files meanwhile
+				before := dirNamesBut(dir, owned)
 				var st *comet.PersistentHybridIndex
 				var err error
 				pan := catchPanic(func() { st, err = openAny(r, dir) })
@@ -177,7 +185,7 @@ func genC17(r *rand.Rand, t *Trace, thorough bool) {
 				if err == nil && !pan {
 					handles[h] = st
 					builders[h] = st.NewSearch().WithVector([]float32{1, 2}).WithK(3)
-				} else if after := dirNames(dir); after != before {
+				} else if after := dirNamesBut(dir, owned); after != before {
 					ops = append(ops, func(c *Case) { c.N(9).N(h) })
 					t.Stat("lock.failed_open_modified_directory")
 				}
@@ -190,13 +198,14 @@ func genC17(r *rand.Rand, t *Trace, thorough bool) {
 			case x < 30: // open
 				h := nextH
 				nextH++
-				before := dirNames(dir)
+				owned := lockExists(dir)
+				before := dirNamesBut(dir, owned)
 				st, err := openPlain(dir)
 				code := lockCode(err)
 				if err == nil {
 					handles[h] = st
 					builders[h] = st.NewSearch().WithVector([]float32{1, 2}).WithK(3)
-				} else if after := dirNames(dir); after != before {
+				} else if after := dirNamesBut(dir, owned); after != before {
 					// "fails without modifying the directory"
 					ops = append(ops, func(c *Case) { c.N(9).N(h) })
 					t.Stat("lock.failed_open_modified_directory")
@@ -331,7 +340,8 @@ func genC17(r *rand.Rand, t *Trace, thorough bool) {
 					t.Stat("lock.use_after_close")
 				}
 			case x < 85: // racing opens from 2..8 goroutines
-				beforeRace := dirNames(dir)
+				ownedRace := lockExists(dir)
+				beforeRace := dirNamesBut(dir, ownedRace)
 				k := 2 + r.Intn(7)
 				hs := make([]int, k)
 				codes := make([]int, k)
@@ -361,7 +371,7 @@ func genC17(r *rand.Rand, t *Trace, thorough bool) {
 				la := lockExists(dir)
 				// the losers fail without modifying the directory: afterwards it holds what it held before,
 				// plus at most the winner's LOCK
-				afterRace := strings.ReplaceAll("|"+dirNames(dir)+"|", "|LOCK|", "|")
+				afterRace := strings.ReplaceAll("|"+dirNamesBut(dir, ownedRace)+"|", "|LOCK|", "|")
 				beforeRaceN := strings.ReplaceAll("|"+beforeRace+"|", "|LOCK|", "|")
 				if strings.Trim(afterRace, "|") != strings.Trim(beforeRaceN, "|") {
 					ops = append(ops, func(c *Case) { c.N(9).N(hs[0]) })
